@@ -147,11 +147,17 @@ open Go Gen Hand Flow
 def Good07 (now : Int) (s : Flow.St) (o : ObsState) (op : Flow.Op) : Prop :=
   Inv07 (stepObs now (s, o) op).1.1 (stepObs now (s, o) op).1.2 ∧ (stepObs now (s, o) op).2.2.2 = none
 
-theorem good07_authorize {now : Int} {s : Flow.St} {o : ObsState} (h : Inv07 s o) (a : AuthReq) : Good07 now s o (.authorize a) := by
+theorem good07_authorize {now : Int} {s : Flow.St} {o : ObsState} (h : Inv07 s o) (a : AuthReq) (hint : FlowHint) :
+    Good07 now s o (.authorize a hint) := by
   unfold Good07
-  rw [stepObs_eq (s' := _) (out := _) rfl]
-  simp only [eventOf, observe, and_true]
-  exact h.of_same rfl rfl ⟨rfl, rfl, rfl, rfl, rfl, rfl, rfl, rfl⟩ rfl
+  cases hv : GenFlow.ValidateAuthReqIDTokenHint now (fun _ => hint.token) hint.raw (hintVerifier s) with
+  | error e =>
+    rw [stepObs_eq (s' := s) (out := .error e) (by rw [step_authorize, hv])]
+    exact ⟨h, rfl⟩
+  | ok sub =>
+    rw [stepObs_eq (s' := _) (out := _) (by rw [step_authorize, hv])]
+    simp only [eventOf, St.store, St.setStore, List.getLast?_append, List.getLast?_singleton, Option.some_or, Option.map_some, observe, and_true]
+    exact h.of_same rfl rfl ⟨rfl, rfl, rfl, rfl, rfl, rfl, rfl, rfl⟩ rfl
 
 theorem good07_login {now : Int} {s : Flow.St} {o : ObsState} (h : Inv07 s o) (id subject : String) (authTime : Int) :
     Good07 now s o (.login id subject authTime) := by
@@ -163,19 +169,22 @@ theorem good07_login {now : Int} {s : Flow.St} {o : ObsState} (h : Inv07 s o) (i
 theorem good07_callback {now : Int} {s : Flow.St} {o : ObsState} (h : Inv07 s o) (id code : String) :
     Good07 now s o (.callback id code) := by
   unfold Good07
+  by_cases hid0 : id = ""
+  · rw [stepObs_eq (s' := s) (out := .error "ErrInvalidRequest") (by rw [step_callback]; simp [hid0])]
+    exact ⟨h, rfl⟩
   cases hf : s.store.authReqs.find? (·.id == id) with
   | none =>
-    rw [stepObs_eq (s' := s) (out := .error "ErrInvalidRequest") (by rw [step_callback, hf])]
+    rw [stepObs_eq (s' := s) (out := .error "ErrInvalidRequest") (by rw [step_callback' now s code hid0, hf])]
     exact ⟨h, rfl⟩
   | some a =>
     by_cases hd : a.done = true
     · rw [stepObs_eq (s' := s.setStore { s.store with codes := (s.store.codes.filter (·.1 != code)) ++ [(code, id)] }) (out := .code code)
-        (by rw [step_callback, hf]; simp [hd])]
+        (by rw [step_callback' now s code hid0, hf]; simp [hd])]
       simp only [eventOf, observe]
       split
       · exact ⟨h.of_same rfl rfl ⟨rfl, rfl, rfl, rfl, rfl, rfl, rfl, rfl⟩ rfl, rfl⟩
       · exact ⟨h.of_same rfl rfl ⟨rfl, rfl, rfl, rfl, rfl, rfl, rfl, rfl⟩ rfl, rfl⟩
-    · rw [stepObs_eq (s' := s) (out := .error "ErrInteractionRequired") (by rw [step_callback, hf]; simp [hd])]
+    · rw [stepObs_eq (s' := s) (out := .error "ErrInteractionRequired") (by rw [step_callback' now s code hid0, hf]; simp [hd])]
       exact ⟨h, rfl⟩
 
 /-- the first token of `l ++ [new]` that does not resolve in `l` is `new`, when `new`'s token is not in `l` -/
@@ -622,7 +631,11 @@ theorem ClientsOK.trans {s s' : Flow.St} (h : ClientsOK s.p) (e : CfgEq s s') : 
 /-- no step changes the configuration -/
 theorem step_cfg (now : Int) (s : Flow.St) (op : Flow.Op) : CfgEq s (Flow.step now s op).1 := by
   cases op with
-  | authorize a => exact ⟨rfl, rfl, rfl, rfl, rfl, rfl, rfl, rfl⟩
+  | authorize a hint =>
+    rw [step_authorize]
+    split
+    · exact CfgEq.refl s
+    · exact ⟨rfl, rfl, rfl, rfl, rfl, rfl, rfl, rfl⟩
   | login a b c => exact ⟨rfl, rfl, rfl, rfl, rfl, rfl, rfl, rfl⟩
   | callback id code =>
     rw [step_callback]
@@ -630,7 +643,9 @@ theorem step_cfg (now : Int) (s : Flow.St) (op : Flow.Op) : CfgEq s (Flow.step n
     · exact CfgEq.refl s
     · split
       · exact CfgEq.refl s
-      · exact ⟨rfl, rfl, rfl, rfl, rfl, rfl, rfl, rfl⟩
+      · split
+        · exact CfgEq.refl s
+        · exact ⟨rfl, rfl, rfl, rfl, rfl, rfl, rfl, rfl⟩
   | exchange rt req ha =>
     rw [step_exchange]
     cases hce : codeExchange now rt s.p req ha with
@@ -735,7 +750,7 @@ theorem good07_step (now : Int) {s : Flow.St} {o : ObsState} (h : Inv07 s o) (op
       (OpOK now s.p op → ClientsOK s.p → (stepObs now (s, o) op).2.2.2 = none) :=
     fun g => ⟨g.1, Or.inl g.2, fun _ _ => g.2⟩
   cases op with
-  | authorize a => exact lift (good07_authorize h a)
+  | authorize a hint => exact lift (good07_authorize h a hint)
   | login id subject authTime => exact lift (good07_login h id subject authTime)
   | callback id code => exact lift (good07_callback h id code)
   | exchange rt req ha => exact lift (good07_exchange h rt req ha)
@@ -937,7 +952,12 @@ theorem sub_trans {a b c : List String} (h1 : C07.sub a b) (h2 : C07.sub b c) : 
 theorem lin_step (now : Int) {s : Flow.St} {o : ObsState} {g : List (String × List String)} (hi : Inv07 s o) (h : Lin s g) (op : Flow.Op) :
     Lin (Flow.step now s op).1 (lineageStep now s g op) := by
   cases op with
-  | authorize a => exact h.of_same rfl rfl
+  | authorize a hint =>
+    have : lineageStep now s g (.authorize a hint) = g := by simp [lineageStep]
+    rw [this, step_authorize]
+    split
+    · exact h
+    · exact h.of_same rfl rfl
   | login a b c => exact h.of_same rfl rfl
   | callback id code =>
     have : lineageStep now s g (.callback id code) = g := by simp [lineageStep]
@@ -946,7 +966,9 @@ theorem lin_step (now : Int) {s : Flow.St} {o : ObsState} {g : List (String × L
     · exact h
     · split
       · exact h
-      · exact h.of_same rfl rfl
+      · split
+        · exact h
+        · exact h.of_same rfl rfl
   | exchange rt req ha =>
     have hl : lineageStep now s g (.exchange rt req ha) =
         match mintedIn s (Flow.step now s (.exchange rt req ha)).1 with
@@ -1063,7 +1085,7 @@ def wEmpty : OPClient :=
   { id := "", secret := "s", auth := "client_secret_basic", grants := ["authorization_code", "refresh_token"], redirectURIs := ["https://rp.example/cb"] }
 def wStateEmpty : Flow.St := { p := { store := { clients := [wEmpty] }, issuer := "https://op.example", refreshSupported := true } }
 def wOpsEmpty : List Flow.Op :=
-  [.authorize { clientID := "", redirectURI := "https://rp.example/cb", scopes := ["openid", "offline_access"] }, .login "ar1" "user1" 1000, .callback "ar1" "c1",
+  [.authorize { clientID := "", redirectURI := "https://rp.example/cb", scopes := ["openid", "offline_access"] } {}, .login "ar1" "user1" 1000, .callback "ar1" "c1",
    .exchange .provider { Code := "c1", RedirectURI := "https://rp.example/cb", ClientID := "", ClientSecret := "s" } false,
    .refresh .legacy { RefreshToken := "rt1", Scopes := ["openid", "admin"], ClientID := "", ClientSecret := "s" } false]
 
@@ -1083,7 +1105,7 @@ def wAssertion (bytes : Nat) (exp iat : Int) : Token :=
 /-- 3700.5 s: `now - MaxAgeIAT` (3600 s) is 100.5 s, which the code rounds up to 101 s -/
 def wNow : Int := 3700500000000
 def wOpsPk (iatOfRefreshAssertion : Int) : List Flow.Op :=
-  [.authorize { clientID := "pk", redirectURI := "https://rp.example/cb", scopes := ["openid", "offline_access"] }, .login "ar1" "user1" 50, .callback "ar1" "c1",
+  [.authorize { clientID := "pk", redirectURI := "https://rp.example/cb", scopes := ["openid", "offline_access"] } {}, .login "ar1" "user1" 50, .callback "ar1" "c1",
    .exchange .provider { Code := "c1", RedirectURI := "https://rp.example/cb", ClientAssertionType := Const.ClientAssertionTypeJWTAssertion, ClientAssertion := wAssertion 1 4000 3700 } true,
    .refresh .provider { RefreshToken := "rt1", Scopes := ["openid", "admin"], ClientAssertionType := Const.ClientAssertionTypeJWTAssertion,
                         ClientAssertion := wAssertion 2 4000 iatOfRefreshAssertion } true]
